@@ -288,6 +288,13 @@ def emit(prop, tier, seed, t0, runs, extra_findings=(), level="model_checking", 
                        "(item kinds in order | stop reason | error cause | unknown-template sets) of the reference run" % ante[prop][0])
     if extra_cov:
         cov.update(extra_cov)
+    if prop == "C15":
+        level = "other"
+        cov["explanation"] = ("allocation is measured by a counting GlobalAlloc in the harness worker around parse_bytes (total, peak, held; written the moment "
+                              "the call returns) and judged by TLC evaluating the cost model of spec/Trace.tla on every recorded call: allocated <= 64*|buf| + "
+                              "32*held + 256 KiB; held <= 1024*Received + 256 KiB; Units(result) <= 4*Received + 64, Received = |buf| + wire size of the cached "
+                              "templates. Inputs: model vectors, conformant/hostile streams and the adversarial 64 KiB shapes of the scale driver (packed minimal "
+                              "packets, maximal record counts, counts announcing absent bytes, thousands of template fields, zero-length fields, large caches).")
     ev = {"property_id": prop, "tier": tier, "seed": seed, "level": level, "coverage": cov,
           "assumptions": ["TLC and the CommunityModules evaluate the specification correctly",
                           "the harness projection (flatten + to_be_bytes of std types) is faithful",
